@@ -353,7 +353,8 @@ class kLeastAbsErrorsCycles(walkmodel.AbstractWalkModelDiGraph):
         non_empty_walks = []
         non_empty_weights = []
         for walk, weight in zip(solution["walks"], solution["weights"]):
-            if len(walk) > 1:
+            # a node-weighted walk may consist of a single node (a node that is both a source and a sink)
+            if len(walk) > (0 if self.flow_attr_origin == "node" else 1):
                 non_empty_walks.append(walk)
                 non_empty_weights.append(weight)
 
